@@ -146,6 +146,10 @@ def text_document(t, ctx, label):
             y -= t.pick([14, 14, 20, 40, 0], "page.dy")
         if t.coin(25, 100, "page.shape"):
             prog += [Op("re", [F(40), F(40), F(100), F(30)]), Op("S")]
+        if t.coin(15, 100, "page.dangling"):
+            # a path that is built but never painted when the page ends (e.g. a clip without n)
+            prog += [Op("re", [F(20), F(20), F(30), F(30)]), Op("W")]
+            features.add("unpainted path at page end")
         data, _ = gfx.serialise(prog, None)
         c = alloc(docs.content_stream(data, flate=t.coin(50, 100, "page.flate")))
         res = {b"Font": {k: font_ref(v) for k, v in cur.items()}}
